@@ -28,6 +28,7 @@ func C16(c *core.Ctx) {
 	c16Sharing(c)
 	c16CLI(c)
 	c16HeaderOptionLast(c)
+	deadRulesAfterSkip(c, "C16-R8", "no validation rule is written after an unconditional validation.Skip (the correction requirements of regimes and addons included)")
 }
 
 // c16CLI: the command-line / bulk wrappers hand back the envelope that
